@@ -229,6 +229,8 @@ def correspondence(ck, exe, scratch, pool):
                 raw = hexb(f[-1])
                 nontriv = any(c < 32 or c > 126 for c in cstr(raw)) or cstr(raw).endswith(b" ")
             ck.count(key, nontrivial=nontriv)
+            if ncases[mode] <= 1:
+                ck.sample({"correspondence": mode, "driver_input": [x[:160] for x in q[-3:]], "real": [x[:160] for x in a[:2]]}, limit=6)
             if why is None:
                 ck.cov["traces_validated_against_impl"] += 1
             else:
@@ -354,6 +356,9 @@ def judge_files(ck, files, exe_name, stats, msan=False):
                     ft = hexb(r[5]).decode("latin-1")
                     stats["formats"][ft] = stats["formats"].get(ft, 0) + 1
                 ck.count(vlib.hash_str(fname + variant + pair), nontrivial=(variant != "o" or trc == "0"))
+                if variant != "o" and trc == "0" and stats["pairs"] % 997 == 0:
+                    ck.sample({"oracle": short, "variant": variant, "pair": pair, "test": trc, "load": lrc,
+                               "type": hexb(r[5]).decode("latin-1")}, limit=6)
         for v in f["V"]:
             w = v.split(" ")
             kind, variant, pair = w[0], w[1], w[2]
